@@ -177,7 +177,7 @@ func buildJSONWriter(p *Program, o *JSONObject) {
 	for ; i < len(list); i++ {
 		if as, ok := list[i].(*ast.AssignStmt); ok && len(as.Lhs) == 1 && len(as.Rhs) == 1 {
 			if id, ok := as.Lhs[0].(*ast.Ident); ok && id.Name == "_" {
-				if wp := identObj(info, as.Rhs[0]); wp != nil && wp.Name() == "writeProperty" {
+				if wp := identObj(info, as.Rhs[0]); wp != nil && isFuncVar(wp) {
 					writeProperty = wp
 					i++
 					break
@@ -193,22 +193,22 @@ func buildJSONWriter(p *Program, o *JSONObject) {
 	var wpLit *ast.FuncLit
 	for _, st := range list[:i] {
 		switch s := st.(type) {
-		case *ast.DeclStmt:
-			if gd, ok := s.Decl.(*ast.GenDecl); ok {
-				for _, sp := range gd.Specs {
-					vs := sp.(*ast.ValueSpec)
-					for _, n := range vs.Names {
-						if n.Name == "comma" {
-							commaObj = info.Defs[n]
-						}
-					}
-				}
-			}
 		case *ast.AssignStmt:
 			if len(s.Lhs) == 1 && identObj(info, s.Lhs[0]) == writeProperty {
 				wpLit, _ = s.Rhs[0].(*ast.FuncLit)
 			}
 		}
+	}
+	// the separator variable is the string variable the member closure sets to ","
+	if wpLit != nil {
+		ast.Inspect(wpLit.Body, func(n ast.Node) bool {
+			if as, ok := n.(*ast.AssignStmt); ok && len(as.Lhs) == 1 && len(as.Rhs) == 1 {
+				if tv := info.Types[as.Rhs[0]]; tv.Value != nil && tv.Value.Kind() == constant.String && constant.StringVal(tv.Value) == "," {
+					commaObj = identObj(info, as.Lhs[0])
+				}
+			}
+			return true
+		})
 	}
 	o.WritePropertyOK = writePropertyShape(p, wpLit, commaObj, &o.KeyQuoted)
 	for ; i < len(list); i++ {
@@ -944,6 +944,7 @@ func jsonOneOfs(p *Program) map[string]*JSONOneOf {
 func isCommaWriterOf(p *Program, body *ast.BlockStmt, cw, out, comma types.Object) bool {
 	info := p.Pkg.TypesInfo
 	ok := false
+	cwName := ""
 	for _, st := range body.List {
 		as, isAs := st.(*ast.AssignStmt)
 		if !isAs || as.Tok != token.DEFINE || len(as.Lhs) != 1 || identObj(info, as.Lhs[0]) != cw {
@@ -954,7 +955,11 @@ func isCommaWriterOf(p *Program, body *ast.BlockStmt, cw, out, comma types.Objec
 			continue
 		}
 		cl, isCl := u.X.(*ast.CompositeLit)
-		if !isCl || types.ExprString(cl.Type) != "commaWriter" || len(cl.Elts) != 2 {
+		if !isCl || len(cl.Elts) != 2 {
+			continue
+		}
+		cwType, _ := info.TypeOf(cl).(*types.Named)
+		if cwType == nil || cwType.Obj().Pkg() != p.Pkg.Types {
 			continue
 		}
 		got := map[string]types.Object{}
@@ -963,11 +968,22 @@ func isCommaWriterOf(p *Program, body *ast.BlockStmt, cw, out, comma types.Objec
 				got[types.ExprString(kv.Key)] = identObj(info, kv.Value)
 			}
 		}
-		if got["w"] == out && got["comma"] == comma && comma != nil {
+		// the writer field holds `out`, the string field the parent's separator
+		okW, okC := false, false
+		for _, v := range got {
+			if v == out {
+				okW = true
+			}
+			if v == comma && comma != nil {
+				okC = true
+			}
+		}
+		if okW && okC {
 			ok = true
+			cwName = cwType.Obj().Name()
 		}
 	}
-	return ok && commaWriterShape(p) == ""
+	return ok && cwName != "" && commaWriterShape(p, cwName) == ""
 }
 
 func advancesIfWritten(info *types.Info, body *ast.BlockStmt, cw, comma types.Object) bool {
@@ -977,7 +993,7 @@ func advancesIfWritten(info *types.Info, body *ast.BlockStmt, cw, comma types.Ob
 			continue
 		}
 		sel, ok := ifs.Cond.(*ast.SelectorExpr)
-		if !ok || sel.Sel.Name != "written" || identObj(info, sel.X) != cw {
+		if !ok || identObj(info, sel.X) != cw {
 			continue
 		}
 		as, ok := ifs.Body.List[0].(*ast.AssignStmt)
@@ -991,10 +1007,32 @@ func advancesIfWritten(info *types.Info, body *ast.BlockStmt, cw, comma types.Ob
 }
 
 // commaWriterShape: "" when (*commaWriter).Write emits c.comma before the first non-empty write and sets written.
-func commaWriterShape(p *Program) string {
-	fd := p.funcDecl("commaWriter", "Write")
+func commaWriterShape(p *Program, typeName string) string {
+	fd := p.funcDecl(typeName, "Write")
 	if fd == nil {
-		return "commaWriter.Write not found"
+		return "separator writer's Write method not found"
+	}
+	// field roles by type: io.Writer, string separator, bool flag
+	wF, cF, bF := "", "", ""
+	if tn, ok := p.Pkg.Types.Scope().Lookup(typeName).(*types.TypeName); ok {
+		if st, ok := tn.Type().Underlying().(*types.Struct); ok {
+			for i := 0; i < st.NumFields(); i++ {
+				switch u := st.Field(i).Type().Underlying().(type) {
+				case *types.Interface:
+					wF = st.Field(i).Name()
+				case *types.Basic:
+					if u.Kind() == types.String {
+						cF = st.Field(i).Name()
+					}
+					if u.Kind() == types.Bool {
+						bF = st.Field(i).Name()
+					}
+				}
+			}
+		}
+	}
+	if wF == "" || cF == "" || bF == "" {
+		return "separator writer does not have (io.Writer, string, bool) fields"
 	}
 	info := p.Pkg.TypesInfo
 	recv := recvObj(info, fd)
@@ -1010,21 +1048,21 @@ func commaWriterShape(p *Program) string {
 	}
 	// 2. if !c.written && c.comma != "" { _, err := c.w.Write([]byte(c.comma)); if err != nil { return 0, err } }
 	ifs, ok := fd.Body.List[1].(*ast.IfStmt)
-	if !ok || types.ExprString(ifs.Cond) != "!"+r+".written && "+r+".comma != \"\"" || len(ifs.Body.List) != 2 {
+	if !ok || types.ExprString(ifs.Cond) != "!"+r+"."+bF+" && "+r+"."+cF+" != \"\"" || len(ifs.Body.List) != 2 {
 		return "commaWriter.Write: separator guard is not `!c.written && c.comma != \"\"`"
 	}
 	as, ok := ifs.Body.List[0].(*ast.AssignStmt)
-	if !ok || types.ExprString(as.Rhs[0]) != r+".w.Write([]byte("+r+".comma))" {
+	if !ok || types.ExprString(as.Rhs[0]) != r+"."+wF+".Write([]byte("+r+"."+cF+"))" {
 		return "commaWriter.Write: separator is not written to the underlying writer"
 	}
 	// 3. c.written = true
 	as3, ok := fd.Body.List[2].(*ast.AssignStmt)
-	if !ok || types.ExprString(as3.Lhs[0]) != r+".written" || types.ExprString(as3.Rhs[0]) != "true" {
+	if !ok || types.ExprString(as3.Lhs[0]) != r+"."+bF || types.ExprString(as3.Rhs[0]) != "true" {
 		return "commaWriter.Write: does not record that something was written"
 	}
 	// 4. return c.w.Write(bs)
 	ret, ok := fd.Body.List[3].(*ast.ReturnStmt)
-	if !ok || len(ret.Results) != 1 || types.ExprString(ret.Results[0]) != r+".w.Write("+bs.Name()+")" {
+	if !ok || len(ret.Results) != 1 || types.ExprString(ret.Results[0]) != r+"."+wF+".Write("+bs.Name()+")" {
 		return "commaWriter.Write: payload is not forwarded unchanged"
 	}
 	return ""
@@ -1085,4 +1123,13 @@ func arrayComponentProblem(p *Program, n *types.Named) string {
 		return "MarshalJSON of array component " + n.Obj().Name() + " does not write exactly one '[' and one ']' unconditionally"
 	}
 	return ""
+}
+
+func isFuncVar(o types.Object) bool {
+	v, ok := o.(*types.Var)
+	if !ok {
+		return false
+	}
+	_, isSig := v.Type().Underlying().(*types.Signature)
+	return isSig
 }
